@@ -391,6 +391,13 @@ func (x *X) execOptions(op *Op, rec *OpRec) []z.ExecOption {
 					rec.FmtSeen = append(rec.FmtSeen, e.Path+"|"+e.Code)
 					conf.IssueFormatter(e, c)
 				}))
+			case "setparams":
+				// a formatter may replace the params of the issue it was handed (the issue is its own; the schema's map is not)
+				out = append(out, z.WithIssueFormatter(func(e *z.ZogIssue, c z.Ctx) {
+					rec.FmtSeen = append(rec.FmtSeen, e.Path+"|"+e.Code)
+					e.SetParams(map[string]any{"hint": "set by the formatter"})
+					conf.IssueFormatter(e, c)
+				}))
 			case "stamp":
 				f := func(e *z.ZogIssue, c z.Ctx) {
 					rec.FmtSeen = append(rec.FmtSeen, e.Path+"|"+e.Code)
